@@ -148,9 +148,22 @@ func (s *suite) violation(lane string, c interface{}, o Outcome) {
 // runLane runs: (1) the replay named by VERIF_REPLAY if it belongs to this
 // lane, else (2) the lane's corpus files and known-finding confirmations, then
 // (3) the rapid search.
+// deadlockToFail turns an inconclusive outcome that carries deadlock evidence (a library goroutine blocked on a
+// mutex while quiescence could not be reached, see peer.MutexDeadlock) into a violation: every connection-level
+// property includes that the exchange makes progress, and "inconclusive" must not hide a wedged loop.
+func deadlockToFail(o Outcome) Outcome {
+	if o.Fail == "" && strings.Contains(o.Inconcl, "LIBRARY-DEADLOCK") {
+		return Outcome{Fail: o.Inconcl, Sig: "deadlock", NonTrivial: o.NonTrivial, Classes: o.Classes}
+	}
+	return o
+}
+
 func runLane[C any](s *suite, l Lane[C]) {
 	if !wantLane(l.Name) {
 		return
+	}
+	if run := l.Run; run != nil {
+		l.Run = func(c C) Outcome { return deadlockToFail(run(c)) }
 	}
 	t := s.t
 	if rp := os.Getenv("VERIF_REPLAY"); rp != "" {
@@ -346,6 +359,9 @@ func runEnum[C any](s *suite, l EnumLane[C]) {
 	}
 	runLane(s, Lane[C]{Name: l.Name, Run: l.Run}) // corpus files of this lane, no search
 	sh, ns := shard()
+	if run := l.Run; run != nil {
+		l.Run = func(c C) Outcome { return deadlockToFail(run(c)) }
+	}
 	stride := l.QuickStride
 	if ev.Tier() == "thorough" {
 		stride = l.ThorStride
